@@ -67,13 +67,18 @@ def run(chk):
                         chk.violation("codec-%s-%s-%s-%s" % (curve, j["prog"]["id"], row["kind"], row.get("cut", row.get("tok", row.get("val", "")))),
                                       {"curve": curve, "program": j["prog"], "test": {k: v for k, v in row.items() if k != "bad"}, "bad": bad},
                                       "; ".join(bad))
+    # (B3) byte-level sessions on toy curves: what to_bytes emitted is the token stream Library!Tokens spells for the proof (field order,
+    # counts, size law, k = log2 of the padded gate count), and from_bytes on honest, truncated, bit-flipped, overwritten, count-edited and
+    # extended encodings returns what the decoder state machine returns, with the proof object the tokens stand for
+    for curve, n in (("toy31723", 150 if q else 1500), ("toy79", 100 if q else 1000)):
+        vlib.session_traces(chk, curve, n, vlib.flags(C=1), "encoding-session", seed_off=40)
     chk.finish(
         rule="TLC model-checks the decoder state machine (Codec: SizeLaw, PrefixRejected, InvalidTokenRejected, TrailingIgnored, DecodeLinearMemory, "
              "DecodeTotal) for k <= %d per curve's token sizes and prints one test per (k, cut byte) - every strict prefix -, per (token position, "
              "invalid class) - scalar >= modulus, scalar = modulus, off-curve x, non-canonical x, point outside the prime-order subgroup (P + small-order "
              "point on curve25519) -, trailing bytes and inflated counts; each is applied to honest proofs of %d circuit shapes (1- and 2-phase) on "
              "secq256k1, zorro, curve25519, toy31723 and run through the real from_bytes (and verify where it decodes); size, determinism and "
-             "re-encode equality are checked per shape. distinct = distinct (curve, shape, test)" % (maxk, len(shapes)),
+             "re-encode equality are checked per shape. Recorded byte-level sessions on toy31723 / toy79 (encode, adversarial bytes, decode) are validated against Library.tla (Tokens, ProofOf, DecodeBytes, EncSize). distinct = distinct (curve, shape, test)" % (maxk, len(shapes)),
         assumptions=["invalid tokens are constructed with arkworks' unchecked decoder as the oracle for 'not a curve point'",
                      "classes that do not exist on a curve (subgroup on cofactor-1 curves) are skipped there"],
         extra={"exhaustive": True})
